@@ -55,6 +55,21 @@ def is_debug_cond(e):
     return False
 
 
+def variant_decoder_of(v):
+    """E if v builds the variant decoder of encoding E: `E.new_variant_decoder()` or, written out, `E.variant.new_variant_decoder()`"""
+    if v[0] != 'call' or not v[2]:
+        return None
+    if v[1] == 'Encoding::new_variant_decoder':
+        return v[2][0]
+    if v[1] == 'variant::VariantEncoding::new_variant_decoder':
+        a = strip_ref(v[2][0])
+        while a[0] == 'ref':
+            a = strip_ref(a[1])
+        if a[0] == 'fld' and a[2] == 'variant' and a[1][0] == 'deref':
+            return a[1][1]
+    return None
+
+
 class Norm:
     def __init__(self, b, off_local=None, extra=None):
         self.b = b
@@ -187,8 +202,9 @@ def main_transitions(rep, f, c, sink):
                 effects.append('encoding:=' + str(static_of(e[2])))
             elif pl == ('fld', ('deref', SELF), 'variant'):
                 v = e[2]
-                if v[0] == 'call' and v[1] == 'Encoding::new_variant_decoder':
-                    effects.append('variant:=new(' + str(static_of(v[2][0])) + ')')
+                enc_ = variant_decoder_of(v)
+                if enc_ is not None:
+                    effects.append('variant:=new(' + str(static_of(enc_)) + ')')
                 else:
                     effects.append('variant:=?')
             else:
@@ -607,7 +623,8 @@ def start_states(rep, f, c):
         ok = len(cs) == 1
         if ok:
             a = [r.operand(x) for x in cs[0]['args']]
-            ok = strip_ref(a[0]) == ('loc', 1) and a[1][0] == 'call' and a[1][1] == 'Encoding::new_variant_decoder' and strip_ref(a[1][2][0]) == ('loc', 1) and variant_name(a[2]) == mode
+            ve_ = variant_decoder_of(a[1])
+            ok = strip_ref(a[0]) == ('loc', 1) and ve_ is not None and strip_ref(ve_) == ('loc', 1) and variant_name(a[2]) == mode
         rep.ob('C10-D1.ctor', ctor, ok, 'constructor is not Decoder::new(self, self.new_variant_decoder(), BomHandling::%s)' % mode, sp_str(b2.raw['span']), None, c)
 
 
@@ -734,34 +751,93 @@ def one_shot(rep, f, c):
         rep.undecidable('C10-D2', fn, 'not found', None, c)
     else:
         site = sp_str(b.raw['span'])
+        # decode_with_bom_removal as a function of (which encoding self is, how the buffer starts): every guard of a path is
+        # evaluated on each combination; exactly one path accepts it and must pass &bytes[k..] with k = the length of self's own
+        # BOM if the buffer starts with it, else 0.  Guards may compare self with the encodings, test prefixes, or go through
+        # Encoding::for_bom (decided separately above), in any arrangement.
+        import itertools as _it
         ok = True
         cases = set()
-        for p in [p for p in region_paths(b, 0) if feasible(p) and p.end[0] == 'return']:
-            eqs = [(static_of(e[1][2][1]), e[2]) for e in p.conds() if e[1][0] == 'call' and (e[1][1] or '').endswith('::eq') and strip_ref(e[1][2][0]) == ('loc', 1)]
-            sws = [(const_bytes(f, e[1][2][1]), e[2]) for e in p.conds() if e[1][0] == 'call' and (e[1][1] or '').endswith('::starts_with') and strip_ref(e[1][2][0]) == ('loc', 2)]
-            dc = [e for e in p.calls() if e[1] == 'Encoding::decode_without_bom_handling']
-            if len(dc) != 1 or strip_ref(dc[0][2][0]) != ('loc', 1):
+        why_ = ''
+        paths = [p for p in region_paths(b, 0) if feasible(p) and p.end[0] == 'return']
+
+        def ref_for_bom(buf):
+            for enc_, bom in BOMS.items():
+                if buf[:len(bom)] == bom:
+                    return (enc_, len(bom))
+            return None
+
+        def is_for_bom(e):
+            return e[0] == 'call' and e[1] == 'Encoding::for_bom' and strip_ref(e[2][0]) == ('loc', 2)
+
+        def enc_of(e, me, buf):
+            e = strip_ref(e)
+            while e[0] in ('deref', 'ref'):
+                e = strip_ref(e[1])
+            if e == ('loc', 1):
+                return me
+            st_ = static_of(e)
+            if st_:
+                return st_
+            if e[0] == 'fld' and e[2] == '0' and e[1][0] == 'fld' and e[1][2] == '0' and e[1][1][0] == 'as' and e[1][1][2] == 'Some' and is_for_bom(e[1][1][1]):
+                r_ = ref_for_bom(buf)
+                return r_[0] if r_ else 'invalid'
+            return None
+
+        def guard2(e, me, buf):
+            ce, lab = e[1], e[2]
+            if ce[0] == 'c':
+                return bool(ce[1]) == lab if isinstance(lab, bool) else True
+            if ce[0] == 'variant' and is_for_bom(ce[1]):
+                return (ref_for_bom(buf) is not None) == (lab == 'Some')
+            if ce[0] == 'call' and (ce[1] or '').endswith(('::eq', '::ne')) and len(ce[2]) == 2 and isinstance(lab, bool):
+                a_, b_ = enc_of(ce[2][0], me, buf), enc_of(ce[2][1], me, buf)
+                if a_ is None or b_ is None:
+                    return None
+                return ((a_ == b_) == ce[1].endswith('::eq')) == lab
+            if ce[0] == 'call' and (ce[1] or '').endswith('::starts_with') and strip_ref(ce[2][0]) == ('loc', 2) and isinstance(lab, bool):
+                pre = const_bytes(f, ce[2][1])
+                return None if pre is None else ((buf[:len(pre)] == pre) == lab)
+            return None
+
+        bufs = [b'', b'\x41', b'\xEF\xBB', b'\xEF\xBB\xBF', b'\xEF\xBB\xBFA', b'\xFF\xFE', b'\xFF\xFEA\x00', b'\xFE\xFF', b'\xFE\xFF\x00A', b'\xFF', b'\xFE', b'AB\xEF\xBB\xBF']
+        nrows = 0
+        for me, buf in _it.product(['UTF_8', 'UTF_16LE', 'UTF_16BE', 'WINDOWS_1252'], bufs):
+            want_k = len(BOMS[me]) if me in BOMS and buf[:len(BOMS[me])] == BOMS[me] else 0
+            got_ = []
+            for p in paths:
+                ts = [guard2(e, me, buf) for e in p.conds()]
+                if any(t is None for t in ts):
+                    ok = False
+                    why_ = 'a condition is not a test of self, the buffer prefix or for_bom: %s' % [expr_str(e[1], b)[:80] for e, t in zip(p.conds(), ts) if t is None][:1]
+                    continue
+                if not all(ts):
+                    continue
+                dc = [e for e in p.calls() if e[1] == 'Encoding::decode_without_bom_handling']
+                if len(dc) != 1 or strip_ref(dc[0][2][0]) != ('loc', 1):
+                    got_.append('?')
+                    continue
+                arg = dc[0][2][1]
+                ix = index_from(arg)
+                if ix is not None and len(ix) == 2 and strip_ref(ix[0]) == ('loc', 2):
+                    off = ix[1]
+                    if off[0] == 'c':
+                        got_.append(off[1])
+                    elif off[0] == 'fld' and off[2] == '1' and off[1][0] == 'fld' and off[1][1][0] == 'as' and is_for_bom(off[1][1][1]) and ref_for_bom(buf):
+                        got_.append(ref_for_bom(buf)[1])
+                    else:
+                        got_.append('?')
+                elif strip_ref(arg) == ('loc', 2):
+                    got_.append(0)
+                else:
+                    got_.append('?')
+            nrows += 1
+            cases.add(me if want_k else 'none')
+            if got_ != [want_k]:
                 ok = False
-                continue
-            arg = dc[0][2][1]
-            ix = index_from(arg)
-            me = [s for s, t in eqs if t]
-            st = [bts for bts, t in sws if t]
-            if ix is not None and len(ix) == 2 and ix[0] == ('loc', 2) and ix[1][0] == 'c':
-                # stripped: must be this encoding's own BOM and its length
-                good = len(me) >= 1 and len(st) >= 1 and BOMS.get(me[-1]) == st[-1] and ix[1][1] == len(st[-1])
-                ok &= good
-                cases.add(me[-1] if me else '?')
-            elif strip_ref(arg) == ('loc', 2):
-                cases.add('none')
-                # not stripped: no (own encoding && own BOM) pair holds on this path
-                for s, t in eqs:
-                    if t and any(bts == BOMS.get(s) and tt for bts, tt in sws):
-                        ok = False
-            else:
-                ok = False
-        rep.ob('C10-D2.bom_removal', fn, ok and cases == {'UTF_8', 'UTF_16LE', 'UTF_16BE', 'none'},
-               'decode_with_bom_removal does not strip exactly its own encoding\'s BOM (cases %r)' % sorted(cases), site, {'cases': sorted(cases)}, c)
+                why_ = why_ or 'for self = %s and a buffer starting %s the input must be decoded from offset %d; the paths give %s' % (me, buf.hex() or '(empty)', want_k, got_)
+        rep.ob('C10-D2.bom_removal', fn, ok and cases == {'UTF_8', 'UTF_16LE', 'UTF_16BE', 'none'} and bool(paths),
+               'decode_with_bom_removal does not strip exactly its own encoding\'s BOM: %s' % why_, site, {'rows': nrows, 'paths': len(paths)}, c)
     fn = 'Encoding::decode'
     b = f.body(fn)
     if b is None:
